@@ -413,6 +413,12 @@ func getBodyStructure(rawHeader textproto.Header, r io.Reader, extended bool) im
 			}
 			bs.Children = append(bs.Children, getBodyStructure(part.Header, part, extended))
 		}
+		if len(bs.Children) == 0 {
+			// A multipart body structure must have at least one part (the
+			// response writer panics otherwise): report a single empty
+			// text/plain part for a multipart message without any part
+			bs.Children = append(bs.Children, getBodyStructure(textproto.Header{}, strings.NewReader(""), extended))
+		}
 		if extended {
 			bs.Extended = &imap.BodyStructureMultiPartExt{
 				Params:      typeParams,
